@@ -262,6 +262,7 @@ type world struct {
 	spd     *switchPD
 	cache   *locate.RegionCache
 	bo      func() *retry.Backoffer
+	extra   map[string]bool // descriptions delivered by stores in `epochraw`
 }
 
 var restoreCfg func()
@@ -282,7 +283,7 @@ func newWorld(old *world) *world {
 	if old != nil && old.cache != nil {
 		old.cache.Close()
 	}
-	w := &world{live: newCluster(), spd: &switchPD{}}
+	w := &world{live: newCluster(), spd: &switchPD{}, extra: map[string]bool{}}
 	w.hist = [][]region{pdState(w.live)}
 	w.setView(w.live)
 	w.bo = func() *retry.Backoffer { return retry.NewNoopBackoff(context.Background()) }
@@ -366,6 +367,9 @@ func noRegress(before, after []entry) bool {
 }
 
 func (w *world) known(key string) bool {
+	if w.extra[key] {
+		return true
+	}
 	for _, st := range w.hist {
 		for _, r := range st {
 			if r.key() == key {
@@ -472,11 +476,36 @@ func (w *world) exec(line string) string {
 			v, err := strconv.ParseUint(s, 10, 64)
 			return v, err == nil
 		}
-		before, _, _ := w.dump()
+		before, beforeLatest, _ := w.dump()
 		regress := func() check {
 			after, _, _ := w.dump()
 			return check{noRegress(before, after), "regress"}
 		}
+		latest := func() check {
+			after, afterLatest, _ := w.dump()
+			for _, e := range after {
+				newest := true
+				for _, x := range after {
+					if x.ID == e.ID && (x.Ver > e.Ver || (x.Ver == e.Ver && x.ConfVer > e.ConfVer)) {
+						newest = false
+					}
+				}
+				if !newest {
+					continue
+				}
+				ok := false
+				for _, y := range afterLatest {
+					if y[0] == e.ID && y[1] >= e.Ver && y[2] >= e.ConfVer {
+						ok = true
+					}
+				}
+				if !ok {
+					return check{false, fmt.Sprintf("latest-index-missing:%d", e.ID)}
+				}
+			}
+			return check{true, ""}
+		}
+		_ = beforeLatest
 		switch {
 		case f[0] == "newcache" && len(f) == 1:
 			w.newCache()
@@ -513,7 +542,7 @@ func (w *world) exec(line string) string {
 				return "err"
 			}
 			x := mkLoc(l)
-			return verdict(check{contains(x.start, x.end, k), "not-contained"}, check{w.known(x.key()), "unknown-region"}, regress()) + " " + x.key()
+			return verdict(check{contains(x.start, x.end, k), "not-contained"}, check{w.known(x.key()), "unknown-region"}, regress(), latest()) + " " + x.key()
 		case f[0] == "locend" && len(f) == 2:
 			k, ok := vx.UnHex(f[1])
 			if !ok {
@@ -524,7 +553,7 @@ func (w *world) exec(line string) string {
 				return "err"
 			}
 			x := mkLoc(l)
-			return verdict(check{containsByEnd(x.start, x.end, k), "not-contained"}, check{w.known(x.key()), "unknown-region"}, regress()) + " " + x.key()
+			return verdict(check{containsByEnd(x.start, x.end, k), "not-contained"}, check{w.known(x.key()), "unknown-region"}, regress(), latest()) + " " + x.key()
 		case f[0] == "locid" && len(f) == 2:
 			id, ok := num(f[1])
 			if !ok {
@@ -535,7 +564,7 @@ func (w *world) exec(line string) string {
 				return "err"
 			}
 			x := mkLoc(l)
-			return verdict(check{x.id == id, "wrong-id"}, check{w.known(x.key()), "unknown-region"}, regress()) + " " + x.key()
+			return verdict(check{x.id == id, "wrong-id"}, check{w.known(x.key()), "unknown-region"}, regress(), latest()) + " " + x.key()
 		case f[0] == "range" && len(f) == 3:
 			a, ok1 := vx.UnHex(f[1])
 			b, ok2 := vx.UnHex(f[2])
@@ -550,7 +579,7 @@ func (w *world) exec(line string) string {
 			for _, l := range res {
 				ls = append(ls, mkLoc(l))
 			}
-			return verdict(gapCheck(coverRanges(ls, []kv.KeyRange{{StartKey: a, EndKey: b}}, before)), check{w.allKnown(ls), "unknown-region"}, regress()) + " " + fmtLocs(ls)
+			return verdict(gapCheck(coverRanges(ls, []kv.KeyRange{{StartKey: a, EndKey: b}}, before)), check{w.allKnown(ls), "unknown-region"}, regress(), latest()) + " " + fmtLocs(ls)
 		case f[0] == "batch" && len(f) >= 2:
 			var ranges []kv.KeyRange
 			for _, t := range f[1:] {
@@ -575,7 +604,7 @@ func (w *world) exec(line string) string {
 			for _, l := range res {
 				ls = append(ls, mkLoc(l))
 			}
-			return verdict(gapCheck(coverRanges(ls, ranges, before)), check{w.allKnown(ls), "unknown-region"}, regress()) + " " + fmtLocs(ls)
+			return verdict(gapCheck(coverRanges(ls, ranges, before)), check{w.allKnown(ls), "unknown-region"}, regress(), latest()) + " " + fmtLocs(ls)
 		case f[0] == "group" && len(f) >= 2:
 			var keys [][]byte
 			for _, t := range f[1:] {
@@ -641,7 +670,7 @@ func (w *world) exec(line string) string {
 			for _, x := range gs {
 				out = append(out, x.name+"="+x.keys)
 			}
-			return verdict(check{good, "bad-grouping"}, check{allKnown, "unknown-region"}, regress()) +
+			return verdict(check{good, "bad-grouping"}, check{allKnown, "unknown-region"}, regress(), latest()) +
 				fmt.Sprintf(" first=%d:%d:%d ", first.GetID(), first.GetVer(), first.GetConfVer()) + strings.Join(out, " ")
 		case f[0] == "listids" && len(f) == 3:
 			a, ok1 := vx.UnHex(f[1])
@@ -658,7 +687,7 @@ func (w *world) exec(line string) string {
 			for _, id := range ids {
 				out = append(out, strconv.FormatUint(id, 10))
 			}
-			return verdict(regress()) + " " + strings.Join(out, " ")
+			return verdict(regress(), latest()) + " " + strings.Join(out, " ")
 		case f[0] == "conv" && len(f) == 3:
 			k, ok := vx.UnHex(f[1])
 			if !ok || (f[2] != "inval" && f[2] != "reload" && f[2] != "epochnm") {
@@ -714,7 +743,7 @@ func (w *world) exec(line string) string {
 			calls := w.spd.calls
 			l2, err := w.cache.LocateKey(w.bo(), k)
 			settled := err == nil && mkLoc(l2).key() == cur.key() && w.spd.calls == calls
-			return verdict(check{settled, "not-settled"}, check{failed <= 1, "too-many-attempts"}, regress()) + fmt.Sprintf(" %d", failed)
+			return verdict(check{settled, "not-settled"}, check{failed <= 1, "too-many-attempts"}, regress(), latest()) + fmt.Sprintf(" %d", failed)
 		case (f[0] == "expire" || f[0] == "delayreload") && len(f) == 2:
 			id, ok := num(f[1])
 			if !ok {
@@ -768,6 +797,48 @@ func (w *world) exec(line string) string {
 			}
 			w.cache.UpdateLeader(v, &metapb.Peer{Id: peerID(id, store), StoreId: store}, 0)
 			return "ok"
+		case f[0] == "epochraw" && len(f) >= 3:
+			id, ok := num(f[1])
+			if !ok {
+				return "bad-op"
+			}
+			var metas []*metapb.Region
+			var keys []string
+			for _, t := range f[2:] {
+				p := strings.Split(t, ":")
+				if len(p) != 5 {
+					return "bad-op"
+				}
+				rid, ok1 := num(p[0])
+				a, ok2 := vx.UnHex(p[1])
+				b, ok3 := vx.UnHex(p[2])
+				ver, ok4 := num(p[3])
+				conf, ok5 := num(p[4])
+				if !(ok1 && ok2 && ok3 && ok4 && ok5) {
+					return "bad-op"
+				}
+				m := &metapb.Region{Id: rid, StartKey: a, EndKey: b, RegionEpoch: &metapb.RegionEpoch{ConfVer: conf, Version: ver}}
+				for s := uint64(1); s <= 3; s++ {
+					m.Peers = append(m.Peers, &metapb.Peer{Id: peerID(rid, s), StoreId: s})
+				}
+				metas = append(metas, m)
+				keys = append(keys, fmtR(rid, a, b, ver, conf))
+			}
+			v, ok := w.cache.VerifLatest(id)
+			if !ok {
+				return "none"
+			}
+			if _, ok := w.cache.VerifCached(v); !ok {
+				return "none"
+			}
+			_, retry, err := w.cache.VerifEpochNotMatch(w.bo(), v, metas)
+			if retry || err != nil {
+				return "retry"
+			}
+			for _, k := range keys {
+				w.extra[k] = true
+			}
+			return verdict(regress(), latest())
 		case f[0] == "epochnm" && len(f) == 2:
 			id, ok := num(f[1])
 			if !ok {
@@ -796,7 +867,7 @@ func (w *world) exec(line string) string {
 			if retry || err != nil {
 				return "retry"
 			}
-			return verdict(regress())
+			return verdict(regress(), latest())
 		}
 		// topology
 		if applyTopo(w.live, f) {
@@ -1273,6 +1344,74 @@ func (g *gen) boundaryScenario() {
 	}
 }
 
+// rightDeriveScenario: a store reports a split in which the SURVIVING id keeps the right half (its start key moves) and a
+// new id takes the left half — something mocktikv's Split (id stays on the left) cannot produce, so the report is fed
+// to OnRegionEpochNotMatch directly (`epochraw`), in both orders [derived, sibling] / [sibling, derived].  With the
+// derived region inserted first, the pre-split entry of the same id lingers at the old start key until the sibling's
+// insert evicts it; the by-id index (latestVersions) must keep naming the derived version.  Followed by by-id / by-key
+// lookups, invalidation and stale PD answers (PD still describes the unsplit region, possibly with an older conf
+// version).  The case ends here: the cache is now ahead of PD, which the other ops do not expect.
+func (g *gen) rightDeriveScenario() {
+	for i, k := 0, g.r.Intn(3); i < k; i++ {
+		st := pdState(g.w.live)
+		pick := st[g.r.Intn(len(st))]
+		if strings.HasPrefix(g.do(fmt.Sprintf("split %d %d %s", pick.id, g.nextID, vx.Hex(g.key()))), "ok") {
+			g.nTopo++
+		}
+		g.nextID++
+	}
+	st := pdState(g.w.live)
+	x := st[g.r.Intn(len(st))]
+	var m []byte
+	for tries := 0; tries < 40 && m == nil; tries++ {
+		k := g.key()
+		if contains(x.start, x.end, k) && !bytes.Equal(k, x.start) {
+			m = k
+		}
+	}
+	if m == nil {
+		return
+	}
+	if g.r.Chance(30) {
+		g.do(fmt.Sprintf("addpeer %d %d", x.id, 4+g.r.Intn(2))) // PD's description gets a newer conf version first
+		g.do("pdview " + strconv.Itoa(g.nTopo))
+		x2, _ := getRegion(g.w.live, x.id)
+		g.do("loc " + vx.Hex(x.start)) // cached with the older conf version
+		g.do("pdview live")
+		x = x2
+		_ = x2
+	}
+	g.do("loc " + vx.Hex(x.start))
+	g.do("dump")
+	sib := g.nextID
+	g.nextID++
+	derived := fmtR(x.id, m, x.end, x.ver+1, x.conf)
+	sibling := fmtR(sib, x.start, m, x.ver+1, x.conf)
+	if g.r.Chance(65) {
+		g.do(fmt.Sprintf("epochraw %d %s %s", x.id, derived, sibling))
+	} else {
+		g.do(fmt.Sprintf("epochraw %d %s %s", x.id, sibling, derived))
+	}
+	g.do("dump")
+	for q := 0; q < 5; q++ {
+		switch g.r.Intn(6) {
+		case 0:
+			g.do(fmt.Sprintf("locid %d", x.id))
+		case 1:
+			g.do("loc " + vx.Hex(m))
+		case 2:
+			g.do("loc " + vx.Hex(x.start))
+		case 3:
+			g.do(fmt.Sprintf("inval %d", x.id))
+		case 4:
+			g.do(fmt.Sprintf("needreload %d", x.id))
+		default:
+			g.do("locend " + vx.Hex(m))
+		}
+		g.do("dump")
+	}
+}
+
 // hugeBatch: more request ranges than one PD request takes (16 * defaultRegionsPerBatch), so step 2 of
 // BatchLocateKeyRanges sends a prefix of the uncached ranges per round and rangesAfterKey carries the rest over.
 func (g *gen) hugeBatch() {
@@ -1295,6 +1434,11 @@ func (g *gen) oneCase(n int, nops int) {
 	g.run.Emit("reset", "ok")
 	g.nextID = 2
 	g.nTopo = 0
+	if n%12 == 5 {
+		g.run.Count("family:right-derive")
+		g.rightDeriveScenario()
+		return
+	}
 	shape := g.r.Intn(3)
 	family := g.r.Intn(3) == 0
 	if family {
